@@ -539,6 +539,84 @@ def enc_table(fn_node):
     return table, dirs_ok
 
 
+def rule_reloc_table(ctx) -> None:
+    """Relocation (application) table: MultipleImageTable.export / parse and MultipleImageEntry.export_entry / parse evaluated on
+    models (struct pack/unpack are computed, methods of the two classes are stepped into): what export appends behind an application
+    must come back from parse - every entry with its destination, image bytes and source address, in table order, and the start
+    address must be where the appended images begin, so that the mixin can cut them off again."""
+    import struct as _struct
+    from ..engines import ordereval as _oe
+    Obj = _oe.Obj
+    tcls, ecls = ctx.cls(CLS, "MultipleImageTable"), ctx.cls(CLS, "MultipleImageEntry")
+    exp, par = ctx.own(CLS, "MultipleImageTable", "export"), ctx.own(CLS, "MultipleImageTable", "parse")
+
+    def mk_entry(img, dst, flags=1, src=0):
+        return Obj(_cls=ecls, _img=img, _src_addr=src, _dst_addr=dst, _flags=flags, LTI_LOAD=1)
+
+    def cv(c: ast.Call, ev):
+        f = norm(c.func)
+        if f in ("struct.pack", "pack") and c.args:
+            return _struct.pack(ev.ev(c.args[0]), *[ev.ev(a) for a in c.args[1:]])
+        if f in ("struct.unpack", "unpack") and len(c.args) == 2:
+            d = ev.ev(c.args[1])
+            try:
+                return tuple(_struct.unpack(ev.ev(c.args[0]), bytes(d)))
+            except _struct.error:
+                raise _oe.ModelRaise(_oe.Outcome("raise", "struct.error", c))
+        if f in ("struct.calcsize", "calcsize") and len(c.args) == 1:
+            return _struct.calcsize(ev.ev(c.args[0]))
+        if f == "align_block" and c.args:
+            d = bytes(ev.ev(c.args[0]))
+            al = ev.ev(A.arg_of(c, 1, "alignment")) if A.arg_of(c, 1, "alignment") is not None else 4
+            return d + bytes((-len(d)) % al)
+        if f == "MultipleImageTable" and not c.args and not c.keywords:
+            return Obj(_cls=tcls, _entries=(), start_address=0)
+        if f == "MultipleImageEntry":
+            kw = {k.arg: ev.ev(k.value) for k in c.keywords}
+            pos = [ev.ev(a) for a in c.args]
+            img = pos[0] if pos else kw.get("img")
+            dst = pos[1] if len(pos) > 1 else kw.get("dst_addr")
+            flags = pos[2] if len(pos) > 2 else kw.get("flags", 1)
+            return mk_entry(img, dst, flags)
+        if isinstance(c.func, ast.Attribute) and c.func.attr == "append" and len(c.args) == 1 and isinstance(c.func.value, ast.Attribute) and c.func.value.attr == "_entries":
+            o = ev.ev(c.func.value.value)
+            if isinstance(o, Obj):
+                o.__dict__["_entries"] = tuple(o.__dict__["_entries"]) + (ev.ev(c.args[0]),)
+                return None
+        return _oe.NOT_MODELLED
+    calls = ctx.model_calls(cv, classes={"MultipleImageTable": tcls, "MultipleImageEntry": ecls})
+    probs, n = [], 0
+    for app_len in (0, 64):
+        for imgs in ([b"\xA5" * 20], [b"\xA5" * 20, b"\x5A" * 7], [b"\x11" * 3, b"\x22" * 8, b"\x33" * 5]):
+            app = bytes((i * 5 + 9) & 0xFF for i in range(app_len))
+            table = Obj(_cls=tcls, _entries=tuple(mk_entry(im, 0x80000 + 0x100 * i) for i, im in enumerate(imgs)), start_address=0)
+            try:
+                out = _oe.Evaluator({"self": table, "start_addr": app_len}, ctx.fold_sym(exp), opaque_return=False, call_value=calls).run(A.body_of(exp.node))
+            except _oe.Unsupported as ex:
+                raise AnalysisError(f"C01.reloc-table: MultipleImageTable.export left the fragment: {ex}")
+            if out.kind != "return" or not isinstance(out.value, (bytes, bytearray)):
+                probs.append(f"export of {len(imgs)} entries: {out.kind}")
+                continue
+            blob = app + bytes(out.value)
+            try:
+                out2 = _oe.Evaluator({"data": blob}, ctx.fold_sym(par), opaque_return=False, call_value=calls).run(A.body_of(par.node))
+            except _oe.Unsupported as ex:
+                raise AnalysisError(f"C01.reloc-table: MultipleImageTable.parse left the fragment: {ex}")
+            n += 1
+            t2 = out2.value if out2.kind == "return" else None
+            if not isinstance(t2, Obj):
+                probs.append(f"application of {app_len} bytes + {len(imgs)} entries: the exported bytes do not parse ({out2.kind} {out2.value!r})")
+                continue
+            got = [(e.__dict__["_dst_addr"], bytes(e.__dict__["_img"])) for e in t2.__dict__["_entries"]]
+            want = [(0x80000 + 0x100 * i, im) for i, im in enumerate(imgs)]
+            if got != want:
+                probs.append(f"application of {app_len} bytes + {len(imgs)} entries: parsed (destination, image length) {[(hex(d_), len(i_)) for d_, i_ in got]}, expected {[(hex(d_), len(i_)) for d_, i_ in want]}")
+            elif t2.__dict__["start_address"] != app_len:
+                probs.append(f"application of {app_len} bytes + {len(imgs)} entries: start address {t2.__dict__['start_address']} (the appended images begin at {app_len})")
+    ctx.chk.decide(not probs, "C01.reloc-table", f"{CLS}::MultipleImageTable export<->parse", f"entries (destination, image, order) and the start of the appended images come back from the exported bytes ({n} models: 1-3 entries, unaligned image sizes, with and without a leading application)",
+                   "; ".join(probs[:2]), "", A.loc(CLS, par.node))
+
+
 def rule_config_keys(ctx) -> None:
     """Every configuration key a mixin writes in mix_get_config is read by its (effective) mix_load_from_config."""
     chk, prog = ctx.chk, ctx.prog
@@ -647,6 +725,7 @@ def run(ctx) -> None:
     ctx.rule(rule_config_keys)
     ctx.rule(rule_wire)
     ctx.rule(rule_parse_wait)
+    ctx.rule(rule_reloc_table)
     from . import c17 as _c17
     _t = _c17.build_taint(ctx)
     ctx.rule(_c17.rule_stable_getter, _t, "C01")
